@@ -2,11 +2,12 @@
    metadata inside the package is decided on every run (model_filename = the real ConventionalFileName on all
    generated settings, and the checker compares the name with the decoded metadata); the architecture part
    rests on C02_arch_translation_idempotent (instance obligation over the regenerated tables). *)
-From Coq Require Import List NArith ZArith Bool.
+From Coq Require Import List NArith ZArith Bool String.
 From Coq Require Import Strings.Byte.
 From NfpmV Require Import Lib.Bytes Model.Path Model.Content Model.Meta Model.Cli.
 From NfpmV Require Import Proofs.C15Proofs.
 Import ListNotations.
+Open Scope string_scope.
 
 Theorem C15_cli_flag_wins : forall registered target is_dir flag conv pk path,
   nonempty flag = true -> cli_plan registered target is_dir flag conv = CliOk pk path -> pk = flag.
